@@ -172,7 +172,13 @@ impl AimdController {
             .limit
             .fetch_update(Ordering::Relaxed, Ordering::Relaxed, |current| {
                 let decreased = (current as f64 * self.config.decrease_factor) as usize;
-                Some(decreased.max(self.config.min_limit))
+                // The product goes through f64 (which rounds up above 2^53) and the factor is
+                // not validated, so clamp on both sides.
+                Some(
+                    decreased
+                        .max(self.config.min_limit)
+                        .min(self.config.max_limit),
+                )
             });
     }
 
